@@ -72,6 +72,10 @@ def lane_native(res, tier, profile):
             d = _last_json(p.stdout)
             if p.returncode != 0 or d is None:
                 # the process died: a panic outside catch_unwind, an abort, a signal
+                hp = common.harness_panic(p.stderr.decode("utf-8", "replace"))
+                if hp:
+                    res.add_inconclusive("%s:%s" % (lane, check), "the monitor's own code panicked at %s: %s" % (hp, p.stderr.decode("utf-8", "replace")[-300:]))
+                    continue
                 res.violation("c04:%s:process-died" % lane, "[%s] `%s` exited with %d: %s" % (lane, " ".join(cmd[1:]), p.returncode, p.stderr.decode("utf-8", "replace")[-600:]), check="c04", lane=lane,
                               case={"kind": "c04-lane", "lane": lane, "cmd": cmd[1:], "bytes_hex": [], "nums": []})
                 continue
@@ -120,6 +124,9 @@ def lane_asan(res, tier):
                 res.violation("c04:asan:report", "[asan:%s] %s" % (check, " | ".join(first)), check="c04", lane="asan", case={"kind": "c04-lane", "lane": "asan", "cmd": cmd[1:], "bytes_hex": [], "nums": []})
                 continue
             d = _last_json(p.stdout)
+            if (p.returncode != 0 or d is None) and common.harness_panic(err):
+                res.add_inconclusive("asan:%s" % check, "the monitor's own code panicked at %s" % common.harness_panic(err))
+                continue
             if p.returncode != 0 or d is None:
                 res.violation("c04:asan:process-died", "[asan:%s] exited with %d: %s" % (check, p.returncode, err[-400:]), check="c04", lane="asan", case={"kind": "c04-lane", "lane": "asan", "cmd": cmd[1:], "bytes_hex": [], "nums": []})
                 continue
